@@ -52,14 +52,14 @@ def toOps (ls : List Line) : List (Op Val) × List Nat :=
 structure ModelRun where
   out : List String
   outcome : Outcome
-  ambiguous : Bool
-  sels : List (Sel Val)
+  /-- number of two-sided `select`s that found both channels non-empty (choice unspecified) -/
+  ambig : Nat
   /-- the lines whose batch has been received by the end of the run (per side a prefix of what was sent) -/
   consumed : List Line
 
-def modelRun (nL nR : Nat) (lc rc : Bool) (ls : List Line) : ModelRun :=
+def modelRun (ch : Nat → Bool) (nL nR : Nat) (lc rc : Bool) (ls : List Line) : ModelRun :=
   let (ops, ix) := toOps ls
-  let (st, out, oc, stop) := runFrom (init nL nR lc rc) 0 ops
+  let (st, out, oc, stop) := runFrom ch (init nL nR lc rc) 0 ops
   let line (i : Nat) : Nat := ix.getD i 0
   let lines := out.map fun (i, e) => s!"{line i} {elemToStr (e.map binToVal)}"
   let lines := match oc with
@@ -74,8 +74,7 @@ def modelRun (nL nR : Nat) (lc rc : Bool) (ls : List Line) : ModelRun :=
   let consumed := (sentLs.foldl (fun (acc : List Line × Nat × Nat) l =>
       if l.left then (if acc.2.1 < nl then (l :: acc.1, acc.2.1 + 1, acc.2.2) else acc)
       else (if acc.2.2 < nr then (l :: acc.1, acc.2.1, acc.2.2 + 1) else acc)) ([], 0, 0)).1.reverse
-  { out := lines, outcome := oc, ambiguous := st.ambiguous, sels := selsFrom (init nL nR lc rc) ops,
-    consumed }
+  { out := lines, outcome := oc, ambig := st.ambig, consumed }
 
 /-! ## Input contract (spec side): each side is a contract-respecting block input
     (`StartSpec.inStep`), the two sides advance in lock step, a cached side has one iteration and
@@ -251,12 +250,21 @@ def handle (c : Case) : Verdict :=
       let lc := mode == "L"
       let rc := mode == "R"
       let ls := parseLines nL nR c.ops
-      let m := modelRun nL nR lc rc ls
+      -- Which channel a two-sided `select` takes when both are non-empty is unspecified: the model run is
+      -- parametrised by an oracle (one bit per such `select`; the theorems hold for every oracle). Take the
+      -- default (left first); if the implementation disagrees and such a choice occurred, look for the
+      -- resolution the implementation took (at most 6 choices are resolved, 64 runs).
+      let m0 := modelRun (fun _ => true) nL nR lc rc ls
+      let oracleOf (bits : Nat) : Nat → Bool := fun i => i ≥ 6 || (bits >>> i) % 2 == 0
+      let m := if m0.out == c.implOut || m0.ambig == 0 then m0 else
+        match (List.range 64).find? (fun bits => (modelRun (oracleOf bits) nL nR lc rc ls).out == c.implOut) with
+        | some bits => modelRun (oracleOf bits) nL nR lc rc ls
+        | none => m0
       -- the contract is judged on everything that was sent, the expectations (rounds, completeness,
       -- content) on what the receiver has taken out of the channels by the end of the run
-      let valid := (checkInput nL nR lc rc ls).valid && !m.ambiguous
+      let valid := (checkInput nL nR lc rc ls).valid
       -- the hypothesis of the theorems of Props/C11.lean (`contractL`, left side cached), evaluated on what was sent
-      let leanContract := lc && contractL nL nR (toOps ls).1
+      let leanContract := (lc && contractL nL nR (toOps ls).1) || (rc && contractR nL nR (toOps ls).1)
       let info := { checkInput nL nR lc rc m.consumed with valid := valid }
       let special := c.implOut.any (fun s => s.startsWith "panic:" || s.endsWith "blocked")
       let oracle : Option String :=
@@ -268,7 +276,7 @@ def handle (c : Case) : Verdict :=
           let f05 := c05Failures info impl
           let f09 := if lc || rc then [] else c09Failures info impl
           -- every history the driver accepts (left side cached) must satisfy the theorems' hypothesis
-          let fc := if lc && !leanContract then ["[C11] input accepted by the driver's contract check but not by contractL (Props/C11.lean)"] else []
+          let fc := if (lc || rc) && !leanContract then ["[C11] input accepted by the driver's contract check but not by contractL/contractR (Props/C11.lean)"] else []
           let all := fc ++ f11.map (fun s => s!"[C11] {s}") ++ f05.map (fun s => s!"[C05] {s}")
             ++ f09.map (fun s => s!"[C09] {s}")
           if all.isEmpty then none else some (" ;; ".intercalate all)
@@ -282,9 +290,10 @@ def handle (c : Case) : Verdict :=
                  s!"outcome-{match m.outcome with | .idle => "idle" | .done => "done" | .blocked => "blocked" | .panic => "panic" | .fuel => "fuel"}"]
               ++ (if lc || rc then [s!"cache{min nCacheData 3}"] else [])
               ++ (if nq > 0 then ["queued"] else [])
-              ++ (if leanContract then ["contractL"] else [])
+              ++ (if leanContract then [if lc then "contractL" else "contractR"] else [])
               ++ (if m.consumed.length < ls.length then ["leftover"] else [])
-              ++ (if m.ambiguous then ["ambiguous"] else [])
+              ++ (if m.ambig > 0 then ["ambiguous"] else [])
+              ++ (if m.ambig > 0 && m.out != m0.out then ["ambiguous-other-order"] else [])
               ++ (match oracle with
                   | some _ => ["oraclefail"]
                   | none => []) }
